@@ -82,6 +82,15 @@ def run(ctx, scratch):
                 # (d) fit history on one object vs fresh estimator
                 if d['seeds'] != 'sources' and (name in desc) and _is_class(name, desc):
                     spec0, opts0, _ = prepare(rng, name, d, nmax)
+                    if rng.random() < 0.4:
+                        # an extreme earlier input: a tiny graph (parameters may get clamped, caches sized, warnings raised)
+                        spec0 = dict(shape=[2, 2], coo=[[0, 1, 1], [1, 0, 1]], dtype='int', fmt='csr') if rng.random() < 0.5 else \
+                            dict(shape=[3, 3], coo=[[0, 1, 1], [1, 0, 1], [1, 2, 1], [2, 1, 1]], dtype='int', fmt='csr')
+                        opts0 = {k: v for k, v in opts0.items() if k == 'params'}
+                        if d['seeds'] in ('weights', 'values'):
+                            opts0['seeds'] = {'all': {'dict': {'0': 1}}}
+                        elif d['seeds'] == 'labels':
+                            opts0['seeds'] = {'all': {'dict': {'0': 0, '1': 1}}}
                     steps = [dict(m=spec0, opts=opts0)]
                     if rng.random() < 0.5:
                         steps.append(dict(m=spec, opts=opts))
